@@ -563,9 +563,10 @@ int main(void)
 			if (!bad && off == BS - 12 && ref_le32(IN.obj + BS - 12) == 0 &&
 			    ref_le16(IN.obj + BS - 8) == 12 && IN.obj[BS - 6] == 0 && IN.obj[BS - 5] == 0xDE)
 				kind = 1;
-			/* ASSUME: leaf harness: blocks without a leaf tail that could qualify as htree nodes are the subject of OBJ=DX */
+			/* ASSUME: leaf harness: blocks without a leaf tail that have the shape of an htree node or root (fake dirent
+			 * spanning the block; or "." of 12 bytes followed by ".." spanning the rest) are the subject of OBJ=DX */
 			ASSUME(kind == 1 || !((ref_le16(IN.obj + 4) == BS && IN.obj[6] == 0 && IN.obj[7] == 0) ||
-					      ref_le16(IN.obj + 4) == 12));
+					      (ref_le16(IN.obj + 4) == 12 && ref_le16(IN.obj + 12 + 4) == BS - 12)));
 		}
 		size = BS - 12;
 		coff = BS - 4;
@@ -698,13 +699,13 @@ int main(void)
 		vf_sb.s_feature_compat = IN.f_compat;
 		vf_sb.s_feature_incompat = IN.f_incompat;
 		vf_sb.s_feature_ro_compat = IN.f_ro_compat;
+		en = 0;
+		for (i = 0; i < 16; i++)
+			E[en++] = IN.uuid[i];
 		ext2fs_init_csum_seed(&vf_fs);
 		if (IN.f_incompat & 0x2000u) {
 			PROP(tl_ncalls == 0 && vf_fs.csum_seed == IN.sb_seed, "seed: s_checksum_seed with csum_seed");
 		} else if ((IN.f_ro_compat & 0x0400u) || (IN.f_incompat & 0x0400u)) {
-			en = 0;
-			for (i = 0; i < 16; i++)
-				E[en++] = IN.uuid[i];
 			PROP(vf_tl_chain_ok(32, 0xFFFFFFFFu, 1), "seed: chain starts at ~0");
 			PROP(vf_stream_equal(), "seed: covers the 16 uuid bytes");
 			PROP(vf_fs.csum_seed == vf_tl_result(), "seed: stored");
